@@ -252,6 +252,9 @@ def _len(ip, args, kw):
             return ip.call_function(f, [v], {})
         if v.cls.kind == "namedtuple":
             return len(v.cls.fields)
+    if isinstance(v, SizedV):
+        ip.assume(v.n >= 0) if not ip.pure else None
+        return mk(v.n, "int")
     h = getattr(v, "length", None)
     if h is not None:
         return h(ip)
@@ -444,6 +447,12 @@ def _enumerate(ip, args, kw):
 
 @builtin("zip")
 def _zip(ip, args, kw):
+    if any(isinstance(a, SeqV) and not z3.is_int_value(z3.simplify(a.length)) for a in args):
+        seqs = [a if isinstance(a, SeqV) else seq_of_list(ip, ip.iterate(a)) for a in args]
+        ln = seqs[0].length
+        for s_ in seqs[1:]:
+            ln = z3.If(s_.length < ln, s_.length, ln)
+        return SeqV(z3.simplify(ln), lambda j: tuple(s_.get(j) for s_ in seqs), "list")
     lists = [ip.iterate(a) for a in args]
     return [tuple(t) for t in zip(*lists)]
 
